@@ -96,14 +96,38 @@ def multiply(
     #    if out is None:
     #        out_ = numpoly.clean_attributes(out_)
 
-    numpoly.cmultiply(
-        x1.exponents,
-        x2.exponents,
-        x1.coefficients,
-        x2.coefficients,
-        x1.KEY_OFFSET,
-        out_.values.ravel(),
-    )
+    kernel_dtypes = numpoly.construct.from_attributes.KERNEL_DTYPES
+    # The kernel builds each storage key one byte per exponent and decodes it
+    # as UTF-8, and it copies the raw bytes of the coefficient products: it is
+    # only correct for single-byte (ASCII) key characters and for the
+    # coefficient types it knows.
+    single_byte_keys = int(numpy.max(exponents, initial=0)) + x1.KEY_OFFSET < 128
+    if (
+        single_byte_keys
+        and numpy.dtype(dtype) in kernel_dtypes
+        and x1.dtype in kernel_dtypes
+        and x2.dtype in kernel_dtypes
+    ):
+        numpoly.cmultiply(
+            x1.exponents,
+            x2.exponents,
+            x1.coefficients,
+            x2.coefficients,
+            x1.KEY_OFFSET,
+            out_.values.ravel(),
+        )
+    else:
+        seen = set()
+        values = out_.values
+        for expon1, coeff1 in zip(x1.exponents, x1.coefficients):
+            for expon2, coeff2 in zip(x2.exponents, x2.coefficients):
+                key = (expon1 + expon2 + x1.KEY_OFFSET).astype("uint32")
+                key = key.view(f"U{len(expon1)}").item()
+                if key in seen:
+                    values[key] += numpy.multiply(coeff1, coeff2)
+                else:
+                    values[key] = numpy.multiply(coeff1, coeff2)
+                    seen.add(key)
     if out is None:
         out_ = numpoly.clean_attributes(out_)
 
